@@ -371,6 +371,32 @@ def run_json(spec, ctx):
     want = json.loads(text)
     if got != want or repr(got) != repr(want):
         ctx.violation("json-grammar-returns-wrong-value", {"text": text[:300], "got": repr(got)[:300], "json.loads": repr(want)[:300]})
+    # near misses of the same document: a separator too many or too few is not JSON for the reference decoder either
+    import random
+    rng_ = random.Random(len(text) * 7919 + text.count(","))
+    variants = []
+    for closer in "]}":
+        for m_ in re.finditer(re.escape(closer), text):
+            j = m_.start()
+            k = j - 1
+            while k >= 0 and text[k] in " \n":
+                k -= 1
+            if k >= 0 and text[k] not in "[{,":
+                variants.append(text[:j] + "," + text[j:])
+    for m_ in re.finditer(",", text):
+        variants.append(text[:m_.start()] + " " + text[m_.end():])
+    for vtxt in rng_.sample(variants, min(3, len(variants))):
+        try:
+            json.loads(vtxt)
+            continue                       # (a comma inside a string)
+        except ValueError:
+            pass
+        ctx.count("json_near_misses_tried")
+        try:
+            g2 = json_parser.loads(vtxt)
+        except Exception:
+            continue
+        ctx.violation("json-grammar-accepts-what-the-reference-decoder-rejects", {"text": vtxt[:300], "value": repr(g2)[:200]})
     return isinstance(v, (list, dict)) and len(v) > 0
 
 
